@@ -81,7 +81,9 @@ class Ctx:
     def __init__(self, pid, tier, seed, replay=None):
         self.pid, self.tier, self.seed, self.replay = pid, tier, seed, replay
         self.t0 = time.time()
-        self.outdir = os.path.join(OUT, pid)
+        self.alt = os.path.realpath(REPO) != "/repo"   # development aid: checking a scratch worktree
+        self.alt_tag = hashlib.sha1(REPO.encode()).hexdigest()[:8] if self.alt else ""
+        self.outdir = os.path.join(OUT, pid + ("-" + self.alt_tag if self.alt else ""))
         os.makedirs(self.outdir, exist_ok=True)
         os.makedirs(os.path.join(OUT, "bin"), exist_ok=True)
         self.obligations = []      # [{name, kind, ok, detail}]
@@ -174,7 +176,8 @@ class Ctx:
                         f.write("\n".join(need) + "\n")
         except OSError:
             pass
-        binp = os.path.join(OUT, "bin", cmd + ("-race" if race else ""))
+        # one binary per (command, property): checks sharing a harness command do not race on it
+        binp = os.path.join(OUT, "bin", cmd + "-" + self.pid + ("-race" if race else ""))
         if os.path.exists(binp):
             os.remove(binp)  # never run a stale binary
         env = dict(GOENV)
@@ -187,7 +190,7 @@ class Ctx:
             open(alt, "w").write(mod)
             shutil.copy(dst_sum, os.path.join(OUT, f"alt-{tag}.sum"))
             args += ["-modfile", alt]
-            binp = os.path.join(OUT, "bin", cmd + "-" + tag + ("-race" if race else ""))
+            binp = os.path.join(OUT, "bin", cmd + "-" + self.pid + "-" + tag + ("-race" if race else ""))
         if race:
             args.append("-race")
             env["CGO_ENABLED"] = "1"
@@ -397,5 +400,7 @@ def write_evidence(ctx, violations, known=(), known_observed=()):
     )
     ev = dict(property_id=ctx.pid, tier=ctx.tier, seed=int(ctx.seed), level="proof", coverage=cov,
               assumptions=ctx.assumptions, wall_s=round(time.time() - ctx.t0, 2), violations=violations)
-    os.makedirs(os.path.join(VERIF, "evidence"), exist_ok=True)
-    json.dump(ev, open(os.path.join(VERIF, "evidence", f"{ctx.pid}.json"), "w"), indent=1)
+    # evidence/ describes /repo itself; a run against a scratch worktree (VERIF_REPO) writes elsewhere
+    evdir = os.path.join(VERIF, "evidence") if not ctx.alt else ctx.outdir
+    os.makedirs(evdir, exist_ok=True)
+    json.dump(ev, open(os.path.join(evdir, f"{ctx.pid}.json"), "w"), indent=1)
